@@ -231,6 +231,28 @@ func (s *Solver) define(t *Term) {
 				s.send(fmt.Sprintf("(assert (<= t%d (+ %s %s)))", n.id, a, b))
 			}
 		}
+		// field facts for the uninterpreted product / power / inverse of the felt interpretation:
+		// zero annihilates, and a field has no zero divisors
+		if strings.HasPrefix(n.op, "uf:fprod") || strings.HasPrefix(n.op, "uf:fexp") || strings.HasPrefix(n.op, "uf:finv") {
+			var zs []string
+			args := n.args
+			if strings.HasPrefix(n.op, "uf:fexp") {
+				args = n.args[:1]
+			}
+			for _, a := range args {
+				zs = append(zs, fmt.Sprintf("(= %s 0)", a.ref()))
+			}
+			anyZero := zs[0]
+			if len(zs) > 1 {
+				anyZero = "(or " + strings.Join(zs, " ") + ")"
+			}
+			if strings.HasPrefix(n.op, "uf:fexp") {
+				// x^0 = 1 handled by the executor; here k != 0 is not known, so only x != 0 => r != 0
+				s.send(fmt.Sprintf("(assert (=> (not %s) (not (= t%d 0))))", anyZero, n.id))
+			} else {
+				s.send(fmt.Sprintf("(assert (= %s (= t%d 0)))", anyZero, n.id))
+			}
+		}
 		// range facts for UF applications
 		if strings.HasPrefix(n.op, "uf:") && n.sort == SInt {
 			if n.lo != nil {
